@@ -88,12 +88,22 @@ pub const SITES: [(&str, &str, bool); 31] = [
 pub fn world(ch: &mut Chooser) -> World {
     let mut w = World::default();
     // ---------------- types
-    let enum_opts = ["( Low , High )", "( Low )", "( Low , Mid , High )", "( Low , Low )", "( Low , High , LOW )", "( Low , High , Low )"];
-    let e = ch.pick("enum", &["Low,High", "Low", "Low,Mid,High", "dup:Low,Low", "dup-case:Low,High,LOW", "dup-nonadjacent:Low,High,Low"], 1);
-    if e >= 3 {
+    let enum_opts = [
+        "( Low , High )",
+        "( Low )",
+        "( Low , Mid , High )",
+        "( Low , Low )",
+        "( Low , High , LOW )",
+        "( Low , High , Low )",
+        "( Low , High , Level#High )",
+        "( Level#Low , High , Low )",
+        "( Level#Low , Level#High )",
+    ];
+    let e = ch.pick("enum", &["Low,High", "Low", "Low,Mid,High", "dup:Low,Low", "dup-case:Low,High,LOW", "dup-nonadjacent:Low,High,Low", "dup-typed-second:Low,High,Level#High", "dup-typed-first:Level#Low,High,Low", "typed:Level#Low,Level#High"], 1);
+    if matches!(e, 3..=7) {
         w.violated.insert("P0005");
     }
-    let has_high = matches!(e, 0 | 2 | 4 | 5);
+    let has_high = matches!(e, 0 | 2 | 4 | 5 | 6 | 7 | 8);
     let sub_opts = ["( -10 .. 10 )", "( 0 .. 1 )", "( -10 .. -5 )", "( 10 .. -10 )", "( 5 .. 5 )", "( -5 .. -10 )", "( 1 .. 0 )"];
     let sb = ch.pick("subrange", &["-10..10", "0..1", "-10..-5", "inv:10..-10", "inv:5..5", "inv:-5..-10", "inv:1..0"], 1);
     if sb >= 3 {
@@ -142,7 +152,7 @@ pub fn world(ch: &mut Chooser) -> World {
     }
     types += " END_TYPE";
     let mut tdecl = d("Level", "type", &types);
-    tdecl.faulty = e >= 3 || sb >= 3 || st >= 3 || arr == 2 || alias_k >= 3 || ((st == 6 || alias_k == 2) && !has_high);
+    tdecl.faulty = matches!(e, 3..=7) || sb >= 3 || st >= 3 || arr == 2 || alias_k >= 3 || ((st == 6 || alias_k == 2) && !has_high);
 
     // ---------------- callee and function
     let callee = d(
